@@ -71,7 +71,8 @@ def parseLocs (tok : String) : Option (List RAd) :=
 
 structure Cfg where
   n : Nat
-  mh : Nat
+  /-- routing.max_hops per agent (0 = no limit); a single value in the `reset` line applies to all -/
+  mh : List Nat
   locals : List (List RAd)
 
 def Cfg.localsOf (c : Cfg) (x : Node) : List RAd := c.locals.getD x []
@@ -79,12 +80,17 @@ def Cfg.localsOf (c : Cfg) (x : Node) : List RAd := c.locals.getD x []
 def parseReset (toks : List String) : Option Cfg :=
   match toks with
   | "reset" :: n :: mh :: rest =>
-    match nat? n, nat? mh, rest.mapM parseLocs with
-    | some n, some mh, some ls => if n ≥ 1 ∧ n ≤ 300 ∧ ls.length = n then some { n := n, mh := mh, locals := ls } else none
+    match nat? n, (mh.splitOn ",").mapM nat?, rest.mapM parseLocs with
+    | some n, some mh, some ls =>
+      if n ≥ 1 ∧ n ≤ 300 ∧ ls.length = n ∧ (mh.length = 1 ∨ mh.length = n) then
+        some { n := n, mh := if mh.length = 1 then List.replicate n (mh.headD 0) else mh, locals := ls }
+      else none
     | _, _, _ => none
   | _ => none
 
-def Cfg.initNet (c : Cfg) : Net := init c.n c.mh c.localsOf
+def Cfg.mhOf (c : Cfg) (x : Node) : Nat := c.mh.getD x 0
+
+def Cfg.initNet (c : Cfg) : Net := initH c.n c.mhOf c.localsOf
 
 /-- `none` = not an op of the protocol at all; ill-formed operands become the answer the Go side
     gives for them. -/
@@ -142,7 +148,7 @@ def exec (s : Net) (op : Op) : Net × String :=
     else (s', "r=nolink")
   | .replay a b hint =>
     if a < s.n ∧ b < s.n ∧ linked s a b then
-      let eo := (effFrames (hopCap s.maxHops) (s.nodes a) b hint).map (·.origin)
+      let eo := (effFrames (hopCap (s.maxHops a)) (s.nodes a) b hint).map (·.origin)
       (s', line ("ord:" ++ joinOr "," (eo.map toString)) [nodeStr s' a, queueStr s' a b])
     else (s', "r=nolink")
   | .announce a _ =>
@@ -413,21 +419,24 @@ def entryChecks (p : Prop5) (o : Obs) (x : Node) (e : Entry) : List (Bool × Str
     -- it must lead to the origin (otherwise the hop count was restarted somewhere)
     [ (learned || e.origin == x, "learned-route-without-path"),
       (!learned || e.path.getLast? == some e.origin, "hop-count-restarted") ] ++
-    (if o.cfg.mh = 0 then [] else [ (decide (e.path.length ≤ o.cfg.mh), "stored-beyond-hop-limit") ])
+    -- every table — CIDR, domain, forward AND agent presence — against the holder's own limit
+    (if o.cfg.mhOf x = 0 then [] else [ (decide (e.path.length ≤ o.cfg.mhOf x), "stored-beyond-hop-limit") ])
 
-def msgChecks (p : Prop5) (o : Obs) (m : Adv) : List (Bool × String) :=
+def msgChecks (p : Prop5) (o : Obs) (sender : Node) (m : Adv) : List (Bool × String) :=
   match p with
   | .c11 => [ (!(hasDup m.seenBy), "seenby-duplicate") ]
   | .c15 =>
     -- a forwarded copy (seen-by longer than one) never carries a path longer than the limit
-    if o.cfg.mh = 0 then [] else [ (m.seenBy.length ≤ 1 || m.path.length ≤ o.cfg.mh, "forwarded-beyond-hop-limit") ]
+    -- (judged on the sending agent's own limit)
+    if o.cfg.mhOf sender = 0 || m.wd then []
+    else [ (decide (m.path.length ≤ o.cfg.mhOf sender), "sent-beyond-hop-limit") ]
   | _ => []
 
 /-- `dump converged` (emitted by the generator at the end of a clean case: connected topology brought
     up before any delivery, no loss / expiry / stale cleanup / later replay, every agent announced,
     all queues drained): every agent holds every other agent's presence and every advertised route. -/
 def convergeChecks (o : Obs) (v : View) : List (Bool × String) :=
-  if o.cfg.mh != 0 then [] else
+  if o.cfg.mh.any (· != 0) then [] else
   if v.queues.any (fun q => !q.msgs.isEmpty) then [(false, "converged-dump-not-quiescent")] else
   (v.nodes.map (fun nx =>
     ((List.range o.cfg.n).filter (· != nx.id)).map (fun org =>
@@ -597,6 +606,20 @@ def specLine (p : Prop5) (st : Option Obs) (input : String) : Option Obs × Stri
       | none => (none, "ok")
       | some o =>
         if impl.startsWith "panic" || impl.startsWith "crash" then (some o, "fail crashed") else
+        if toks.head? == some "inject" then
+          -- C15 on all four tables of the receiving agent: beyond its limit nothing is stored or sent on,
+          -- at the limit nothing is sent on
+          (some { o with clock := o.clock + 1 },
+            match toks, tokens impl with
+            | [_, limit, plen], [_, stored, fwd] =>
+              match nat? limit, nat? plen with
+              | some limit, some plen =>
+                if limit = 0 then "ok"
+                else if plen > limit && stored != "stored=0/0/0/0" then "fail stored-beyond-hop-limit"
+                else if plen ≥ limit && fwd != "fwd=0" then "fail sent-beyond-hop-limit"
+                else "ok"
+              | _, _ => "ok"
+            | _, _ => "ok") else
         if toks.head? == some "walk" then
           -- C12: a stream opened along a learned route (path no longer than the hop limit it was
           -- learned under) must arrive at the advertising agent's exit handling
@@ -626,7 +649,7 @@ def specLine (p : Prop5) (st : Option Obs) (input : String) : Option Obs × Stri
           (if p == .c14 && toks == ["dump", "converged"] then renewedChecks { oc with lastAnn := o'.lastAnn } v else []) ++
           opChecks p oc toks v ++
           (v.nodes.map (fun nv => (nv.tab.map (entryChecks p oc nv.id)).flatten)).flatten ++
-          (v.queues.map (fun q => (q.msgs.map (msgChecks p oc)).flatten)).flatten
+          (v.queues.map (fun q => (q.msgs.map (msgChecks p oc q.a)).flatten)).flatten
         match firstFail checks with
         | some tag => (some o', "fail " ++ tag)
         | none => (some o', "ok")
@@ -663,6 +686,20 @@ def stepLine (follow : Bool) (st : Option Net) (input : String) : Option Net × 
             | some o => s!"r=walk reached:{o}"
             | none => "r=walk lost"
           | _, _, _ => "r=bad")
+      | ["inject", limit, plen] =>
+        -- stateless: the model's `handle` on a fresh agent 0 (peers 1 and 2, max_hops = limit) for an
+        -- advertisement of origin 50 with a path of `plen` agents and all four route families
+        (some (step s .dump), match nat? limit, nat? plen with
+          | some limit, some plen =>
+            if limit > 255 || plen < 1 || plen > 250 then "r=bad" else
+            let frm : Node := if plen = 1 then 50 else 1
+            let path : List Node := if plen = 1 then [50] else 1 :: ((List.range (plen - 2)).map (· + 60)) ++ [50]
+            let rs : List RAd := [⟨0, 1, plen - 1⟩, ⟨1, 2, plen - 1⟩, ⟨2, 1, plen - 1⟩, ⟨3, 50, plen - 1⟩]
+            let m : Adv := { origin := 50, seq := 9, path := path, seenBy := path.reverse, routes := rs }
+            let (st, outs, _) := handle limit [frm, 2] 0 frm 0 m {}
+            let cnt := fun (k : Nat) => (st.tab.filter (fun e => e.kind == k)).length
+            s!"r=inject stored={cnt 0}/{cnt 1}/{cnt 2}/{st.agents.length} fwd={(outs.filter (fun o => o.1 == 2)).length}"
+          | _, _ => "r=bad")
       | ["race", k, rounds] =>
         -- stateless stress op: with an atomic test-and-set the answer is always 1 / 1
         (some (step s .dump), match nat? k, nat? rounds with
@@ -681,7 +718,7 @@ def stepLine (follow : Bool) (st : Option Net) (input : String) : Option Net × 
           else []
         let (s', out) := exec s (.replay a b hint)
         -- frames that are not an admissible outcome of SendFullTable are not followed
-        let admissible := !follow || !(a < s.n ∧ b < s.n ∧ linked s a b) || hintOK (hopCap s.maxHops) (s.nodes a) b hint
+        let admissible := !follow || !(a < s.n ∧ b < s.n ∧ linked s a b) || hintOK (hopCap (s.maxHops a)) (s.nodes a) b hint
         (some s', if admissible then out else out ++ " inadmissible-frames")
       | .op (.withdraw a _) =>
         let hint : Option (List (List RAd)) := if follow then
